@@ -157,26 +157,36 @@ func rootfindEngine(args []string) error {
 		if fam.name == "expsat" && r.Intn(2) == 0 {
 			maxIter = 2 + r.Intn(4) // the budget runs out long before the tolerance is met
 		}
-		// how many steps plain interval halving needs from this bracket to meet the tolerance (0: not within 300)
+		// how many halvings of the initial bracket make it so narrow that EVERY point of any bracket of that width around
+		// the root meets the tolerance (non-decreasing f: both |f(root - d)| and |f(root + d)| below it, d = width / 2^k);
+		// 0: not within 300.  An iteration that keeps the tightest sign-changing pair among its trial points, the halving
+		// point among them, has such a bracket after k iterations -- wherever its other trial points fell.  (The first
+		// version counted the steps until a midpoint of PLAIN bisection happened to meet the tolerance and granted two
+		// iterations of slack: that is luck of one particular sequence of midpoints, and the thorough tier met three
+		// searches whose own midpoints were less lucky -- a false alarm of this law, not a defect of FindRoot.)
 		bisect := 0
 		{
 			lo, hi := minX, maxX
 			for k := 1; k <= 300; k++ {
 				mid := hi - (hi-lo)*0.5
-				v := f(mid)
-				if math.Abs(v) < tol {
-					bisect = k
-					break
-				}
-				if v < 0 {
+				if f(mid) < 0 {
 					lo = mid
 				} else {
 					hi = mid
 				}
 			}
+			root := hi - (hi-lo)*0.5
+			d := maxX - minX
+			for k := 1; k <= 300; k++ {
+				d *= 0.5
+				if math.Abs(f(math.Max(minX, root-d))) < tol && math.Abs(f(math.Min(maxX, root+d))) < tol {
+					bisect = k
+					break
+				}
+			}
 		}
 		if fam.name == "triple" && bisect > 0 && r.Intn(2) == 0 {
-			maxIter = bisect + 2 + r.Intn(bisect/2+1) // a budget that just suffices for halving
+			maxIter = bisect + r.Intn(bisect/2+2) // a budget that just suffices for halving
 		}
 		dxMode := r.Intn(4) // 0: true derivative, 1: nil, 2: zero derivative, 3: wrong derivative
 		if dfx == nil {
